@@ -4,6 +4,18 @@ import json, os
 here = os.path.dirname(os.path.abspath(__file__))
 baseline = "cd /repo && cargo test --workspace --no-fail-fast --offline"
 CHECKS = {
+ "C02": ("exploration", "§3 C02", "seeded histories of user edits and real `copia bisync` runs on simulated file systems (incl. runs aborted by injected I/O errors); version-conservation oracle over the recorded history",
+         "Thousands of multi-step histories per second — including paths deleted on both sides and recreated, repeated conflicts with the same losing content and edits to conflict-copies — each checked run by run against the statement's disappearance rule with an independently tracked last-common tree. Two genuine defects were found this way (one repaired, two root-cause classes recorded as known findings).",
+         "regular files; one bisync at a time; SimFs POSIX model; a version survives only at its path or a `.conflict-*` sibling"),
+ "C06": ("exploration", "§3 C06", "same history simulation; per completed run A==B, archive==tree, immediate second run is a traced no-op; metamorphic re-execution with shifted clocks and swapped root order",
+         "Convergence, record exactness and idempotence are checked after every completed run of every history, and the whole history is re-executed under two transformations that must not change any byte.",
+         "clash-free trees; as C02"),
+ "C07": ("fault_enumeration", "§3 C07", "archive storage-fault enumeration (absent, zero-length, truncation points, garbage, wrong shapes, versions, foreign pair, only .bak/.tmp) on states reached by simulated histories",
+         "For each sampled state in which a trusted base would delete something, every fault of the catalogue is applied to a clone of the world and the real bisync must print the safe-mode banner, unlink nothing and keep every version on both sides.",
+         "fault = change of the stored archive bytes before the run; as C02"),
+ "C08": ("fault_enumeration", "§3 C08", "process kill before every file-system-mutating call of a reference run (all k), recovery runs, and call-order (fsync/rename/record) checks over the recorded trace",
+         "Every kill point of every sampled scenario (the nine named ones plus random histories) is executed; after each kill all live paths must hold complete old-or-new versions, the archive must be old/absent/new, and recovery must reach the uninterrupted result. The record-after-flush clause is decided on the traced call order (found and repaired a missing fsync).",
+         "kill lands between system calls; durability judged on call order, no power-loss model"),
  "C01": ("exploration", "§3 C01", "seeded simulation of the I/O schedule (chunking, Interrupted, Pending, short writes, hard errors) over real sync/async engines, CLI chain and single-file sync; four-way engine differential",
          "Every stream the engines touch is a simulated stream whose per-call behaviour is drawn from the run seed; signatures and deltas must be identical across engines and across two independent chunkings of the same input, and patch output must equal the source. Inputs and block sizes are sampled by structural generators; the simulator decides the schedule dimension.",
          "sampled inputs; rayon pool outside the seam (order-independent); SimFs/tokio-driver stubs under the CLI"),
